@@ -14,21 +14,21 @@ fn add<S: Subject>(jobs: &mut Vec<Box<dyn JobT>>, q: u64, t: u64, ex: &[Class], 
 
 pub fn property() -> Property {
     let mut jobs: Vec<Box<dyn JobT>> = Vec::new();
-    add::<SOrswot>(&mut jobs, 8000, 300_000, &[], 0.03);
-    add::<SMVReg>(&mut jobs, 8000, 300_000, &[], 0.03);
-    add::<MapOrswot>(&mut jobs, 8000, 300_000, &[], 0.03);
-    add::<MapMVReg>(&mut jobs, 8000, 300_000, &[Class::T2], 0.03);
-    add::<MapMapMVReg>(&mut jobs, 6000, 200_000, &[Class::T2], 0.03);
-    add::<SList>(&mut jobs, 4000, 100_000, &[], 0.03);
-    add::<SGList>(&mut jobs, 4000, 100_000, &[], 0.03);
-    add::<SMerkle>(&mut jobs, 4000, 100_000, &[], 0.03);
-    add::<SVClock>(&mut jobs, 3000, 60_000, &[], 0.03);
-    add::<SGCounter>(&mut jobs, 3000, 60_000, &[], 0.03);
-    add::<SPNCounter>(&mut jobs, 3000, 60_000, &[], 0.03);
-    add::<SGSet>(&mut jobs, 3000, 60_000, &[], 0.03);
-    add::<SLww>(&mut jobs, 3000, 60_000, &[], 0.03);
-    add::<SMax>(&mut jobs, 3000, 60_000, &[], 0.03);
-    add::<SMin>(&mut jobs, 3000, 60_000, &[], 0.03);
+    add::<SOrswot>(&mut jobs, 24000, 300_000, &[], 0.03);
+    add::<SMVReg>(&mut jobs, 24000, 300_000, &[], 0.03);
+    add::<MapOrswot>(&mut jobs, 24000, 300_000, &[], 0.03);
+    add::<MapMVReg>(&mut jobs, 24000, 300_000, &[Class::T2], 0.03);
+    add::<MapMapMVReg>(&mut jobs, 18000, 200_000, &[Class::T2], 0.03);
+    add::<SList>(&mut jobs, 12000, 100_000, &[], 0.03);
+    add::<SGList>(&mut jobs, 12000, 100_000, &[], 0.03);
+    add::<SMerkle>(&mut jobs, 12000, 100_000, &[], 0.03);
+    add::<SVClock>(&mut jobs, 9000, 60_000, &[], 0.03);
+    add::<SGCounter>(&mut jobs, 9000, 60_000, &[], 0.03);
+    add::<SPNCounter>(&mut jobs, 9000, 60_000, &[], 0.03);
+    add::<SGSet>(&mut jobs, 9000, 60_000, &[], 0.03);
+    add::<SLww>(&mut jobs, 9000, 60_000, &[], 0.03);
+    add::<SMax>(&mut jobs, 9000, 60_000, &[], 0.03);
+    add::<SMin>(&mut jobs, 9000, 60_000, &[], 0.03);
     Property {
         id: "C01",
         rule: "Plans of API edits (each built from a real read at its origin and applied there first) at 2-4 editors + 0-2 observers, op-by-op interleaved causal deliveries, duplicates, strict subsets delivered; no merges. After every step the affected replica is compared (all reads and all contexts) with every replica holding the same knowledge set; at the end every replica is compared with a fresh replica fed the same ops in a different generated causal order, and two fresh replicas fed ALL ops in two further orders are compared. Non-trivial = two (replica or twin) states with the same knowledge (>=2 ops) reached through different delivery orders AND >=1 pair of concurrent ops on the same element/key AND (for types with removes) >=1 remove whose context covers another actor's dot; distinct = distinct Plan hash.".into(),
